@@ -23,6 +23,14 @@ macro_rules! pair {
     }};
 }
 
+/// nest = '(' nest ')' | empty, giving the depth: the body over a handle, and the `recursive()` formulation
+fn nest_body<'a, P: Parser<'a, &'a str, usize, X<'a>> + Clone + 'a>(h: P) -> impl Parser<'a, &'a str, usize, X<'a>> + Clone + 'a {
+    h.delimited_by(just('('), just(')')).map(|d: usize| d + 1).or(empty().to(0usize))
+}
+fn nest_fn<'a>() -> impl Parser<'a, &'a str, usize, X<'a>> + Clone + 'a {
+    recursive(|h| nest_body(h))
+}
+
 fn run(sid: usize, s: &str) -> Option<String> {
     Some(match sid {
         // 0: a memoized parser memoized again (nested placement)
@@ -88,6 +96,57 @@ fn run(sid: usize, s: &str) -> Option<String> {
             // the expected sets of the two readings legitimately differ: compare output and acceptance
             let head = |t: &str| t.split(" [").next().unwrap_or("").to_string();
             if head(&m) == head(&p) { format!("same {}", head(&m)) } else { format!("DIFF M {} | P {}", m, p) }
+        }
+        // ---- property C12: recursive handles ----
+        // 20: defining a declared parser a second time panics at the definition site and leaves the first definition in place
+        20 => {
+            let mut p = Recursive::<chumsky::recursive::Indirect<&str, usize, X>>::declare();
+            p.define(nest_body(p.clone()));
+            let mut q = p.clone();
+            let second = std::panic::catch_unwind(std::panic::AssertUnwindSafe(|| {
+                q.define(just('x').to(7usize));
+            }));
+            let m = show(p.clone(), s);
+            let e = show(nest_fn(), s);
+            if second.is_ok() { format!("DIFF M second define accepted; {} | P panic at the definition site", m) }
+            else if m != e { format!("DIFF M {} | P {}", m, e) } else { format!("same {}", m) }
+        }
+        // 21: a recursive parser cloned, the original dropped, the clone boxed and used through the box
+        21 => {
+            let p = nest_fn();
+            let c = p.clone();
+            drop(p);
+            let b = c.clone().boxed();
+            drop(c);
+            let m = show(b, s);
+            let e = show(nest_fn(), s);
+            if m != e { format!("DIFF M {} | P {}", m, e) } else { format!("same {}", m) }
+        }
+        // 22: mutually recursive declare/define: round = '(' square ')' | empty, square = '[' round ']' | empty; handles cloned and dropped
+        22 => {
+            let mut round = Recursive::<chumsky::recursive::Indirect<&str, usize, X>>::declare();
+            let mut square = Recursive::<chumsky::recursive::Indirect<&str, usize, X>>::declare();
+            round.define(square.clone().delimited_by(just('('), just(')')).map(|d: usize| d + 1).or(empty().to(0usize)));
+            square.define(round.clone().delimited_by(just('['), just(']')).map(|d: usize| d + 1).or(empty().to(0usize)));
+            let r2 = round.clone();
+            drop(round);
+            drop(square);
+            let m = show(r2, s);
+            // reference: the same language by a hand-written recogniser
+            fn reference(s: &str) -> Option<usize> {
+                let b = s.as_bytes();
+                let n = b.len();
+                if n % 2 != 0 { return None; }
+                let h = n / 2;
+                for i in 0..h {
+                    let (o, c) = if i % 2 == 0 { (b'(', b')') } else { (b'[', b']') };
+                    if b[i] != o || b[n - 1 - i] != c { return None; }
+                }
+                Some(h)
+            }
+            let head = m.split(" [").next().unwrap_or("").to_string();
+            let want = format!("{:?}", reference(s));
+            if head == want { format!("same {}", head) } else { format!("DIFF M {} | P {}", m, want) }
         }
         _ => return None,
     })
